@@ -35,7 +35,7 @@ ROUND 2 EXTENSIONS (design/translators.md "Round 2")
                `a + b` (concatenation), `x[lo:hi]` / `x[lo:]` / `x[:hi]` with non-negative Nat bounds (Python's clamping slice =
                `Py.slice`), `x[i]` (-> `Py.byteAt x i` with side condition `i < len(x)`), `len(x)`, `==` / `!=`,
                `e.to_bytes(w, 'big'|'little')` for e : Nat and a literal w (-> `Py.toBytes big w e`, side condition `e < 256^w`
-               = "no OverflowError"), `int.from_bytes(x, 'big'|'little')` (-> `Py.fromBytes big x`).
+               = "no OverflowError"), `int.from_bytes(x, 'big'|'little')` (-> `Py.fromBytes big x`), `n * x` / `x * n` (n : Nat).
   statements : assignment to a declared Nat/Int input shadows it (`i += 4`); assignment to an attribute (`self.flag = True`)
                is a local too; a read of a never-assigned attribute is the declared input.
   selectors  : ('match', PATTERN), ('stmts', FIRST, LAST, RESULT), ('class_attr', NAME) - see `pick`.
@@ -212,6 +212,9 @@ class Tr:
         ty = type(e.op)
         if ty is ast.Add and l[1] == BYTES and r[1] == BYTES:
             return f'({l[0]} ++ {r[0]})', BYTES
+        if ty is ast.Mult and {l[1], r[1]} == {BYTES, NAT}:
+            bs, n = (l, r) if l[1] == BYTES else (r, l)
+            return f'(Py.repeatBytes {bs[0]} {n[0]})', BYTES
         if BYTES in (l[1], r[1]):
             raise Untranslatable('bytes operand of an arithmetic operator')
         if ty in ARITH:
